@@ -429,6 +429,214 @@ Definition run_events (h : HS) (pre : list N) (evs : list event) : mres :=
   | x => x
   end.
 
+(* ---- the extension "waiting for a write" pause (commits 6c29d69, 1b429d0, c72865a) ---------- *)
+(* A completed extension message that needs a reply (ut_metadata request) cannot be processed
+   while the previous reply is still pending (ProtocolExtension::has_pending_message): read_done()
+   returns false, down_extension() does remove_read and the connection stays in READ_EXTENSION
+   with the complete message kept; whatever is behind it in the 512-byte buffer and in the socket
+   waits.  When the pending reply has been written (event_write: up_extension), the waiting
+   message is processed, the state becomes IDLE, the buffered messages are parsed
+   (`while (read_message());`) and reads are enabled again.
+   `reply h` = the extension message that completes in handler state h generates a reply.
+   pend = a reply is pending; wait = a complete message is waiting (mode RPay KExt 0, the buffer
+   rest kept).  The handler never sees pend: the dispatched messages and handler states are
+   those of `feed`; only how far the stream has been consumed depends on the writes. *)
+Variable reply : HS -> bool.
+
+Inductive presb := PB (h : HS) (pend wait : bool) (m : rmode) (buf : list N) (effs : list effect) | PBFault | PBOut.
+
+Definition pbcons (e : effect) (r : presb) : presb :=
+  match r with PB h p w m b es => PB h p w m b (e :: es) | x => x end.
+
+Definition is_kext (k : paykind) : bool := match k with KExt => true | _ => false end.
+
+Fixpoint feedb (fuel : nat) (h : HS) (pend : bool) (m : rmode) (l : list N) : presb :=
+  match fuel with
+  | O => PBOut
+  | S f =>
+    match m with
+    | RClosed => PB h pend false RClosed [] []
+    | RPay k lft =>
+      if N.of_nat (length l) <? lft then PB h pend false (RPay k (lft - N.of_nat (length l))) [] []
+      else if is_kext k && reply h && pend then PB h pend true (RPay k 0) (skipn (N.to_nat lft) l) []
+      else
+        let pend' := pend || (is_kext k && reply h) in
+        let (h', v) := handle h (pay_done k) in
+        match v with
+        | VCont => pbcons (EMsg (pay_done k)) (feedb f h' pend' RIdle (skipn (N.to_nat lft) l))
+        | VClose => PB h' pend' false RClosed [] [EMsg (pay_done k); EClose RHandler]
+        | VFatal => PB h' pend' false RClosed [] [EMsg (pay_done k); EFatal]
+        end
+    | RIdle =>
+      match one_msg rl l with
+      | NeedMore => PB h pend false RIdle l []
+      | HFault => PBFault
+      | Bad r => PB h pend false RClosed [] [EClose r]
+      | HFatal => PB h pend false RClosed [] [EFatal]
+      | Got mg n =>
+        let (h', v) := handle h mg in
+        match v with
+        | VClose => PB h' pend false RClosed [] [EMsg mg; EClose RHandler]
+        | VFatal => PB h' pend false RClosed [] [EMsg mg; EFatal]
+        | VCont =>
+          match after mg with
+          | None => pbcons (EMsg mg) (feedb f h' pend RIdle (skipn n l))
+          | Some (k, len) => pbcons (EMsg mg) (feedb f h' pend (RPay k len) (skipn n l))
+          end
+        end
+      end
+    end
+  end.
+
+Inductive mresb := BRet (s : mst) (pend wait : bool) (avail : list N) (effs : list effect) | BFault | BOut.
+
+Definition bapp (es : list effect) (r : mresb) : mresb :=
+  match r with BRet s p w a es' => BRet s p w a (es ++ es') | x => x end.
+
+(* event_read with the pause; identical to ev when nothing waits *)
+Fixpoint evb (fuel : nat) (s : mst) (pend wait : bool) (avail : list N) : mresb :=
+  match fuel with
+  | O => BOut
+  | S f =>
+    if wait then BRet s pend wait avail [] else
+    match m_mode s with
+    | RClosed => BRet s pend false avail []
+    | RIdle =>
+      let n0 := length (m_buf s) in
+      let target := target_of s in
+      if (n0 <? target)%nat then
+        let want := Nat.min (target - n0) (cap (m_cnt s)) in
+        let got := firstn want avail in
+        let avail1 := skipn want avail in
+        let send := (n0 + length got)%nat in
+        if (bufcap <? send)%nat then BFault else
+        match feedb (S send) (m_h s) pend RIdle (m_buf s ++ got) with
+        | PBFault => BFault
+        | PBOut => BOut
+        | PB h1 p1 w1 m1 b1 es1 =>
+          match got with
+          | [] => BRet (mk_mst h1 m1 b1 (S (m_cnt s))) p1 w1 avail es1
+          | _ :: _ =>
+            if w1 then BRet (mk_mst h1 m1 b1 (S (m_cnt s))) p1 true avail1 es1 else
+            match m1 with
+            | RPay KExt lft =>
+              let c1 := S (m_cnt s) in
+              let want2 := Nat.min (N.to_nat lft) (cap c1) in
+              let got2 := firstn want2 avail1 in
+              let avail2 := skipn want2 avail1 in
+              match feedb (S (S (length got2))) h1 p1 m1 got2 with
+              | PBFault => BFault
+              | PBOut => BOut
+              | PB h2 p2 w2 m2 b2 es2 =>
+                let s2 := mk_mst h2 m2 b2 (S c1) in
+                if w2 then BRet s2 p2 true avail2 (es1 ++ es2) else
+                if negb (length b2 =? 0)%nat || (send =? target)%nat
+                then bapp (es1 ++ es2) (evb f s2 p2 false avail2)
+                else BRet s2 p2 false avail2 (es1 ++ es2)
+              end
+            | _ =>
+              let s1 := mk_mst h1 m1 b1 (S (m_cnt s)) in
+              if negb (length b1 =? 0)%nat || (send =? target)%nat
+              then bapp es1 (evb f s1 p1 false avail1)
+              else BRet s1 p1 false avail1 es1
+            end
+          end
+        end
+      else
+        match m_buf s with
+        | [] => BRet s pend false avail []
+        | _ :: _ => BRet (mk_mst (m_h s) RClosed [] (m_cnt s)) pend false avail [EClose RFull]
+        end
+    | RPay k lft =>
+      let want := Nat.min (N.to_nat lft) (cap (m_cnt s)) in
+      let got := firstn want avail in
+      let avail1 := skipn want avail in
+      match got with
+      | [] => BRet s pend false avail []
+      | _ :: _ =>
+        match feedb (S (S (length got))) (m_h s) pend (RPay k lft) got with
+        | PBFault => BFault
+        | PBOut => BOut
+        | PB h1 p1 w1 m1 b1 es1 =>
+          let s1 := mk_mst h1 m1 b1 (S (m_cnt s)) in
+          if w1 then BRet s1 p1 true avail1 es1 else
+          match m1 with
+          | RIdle => bapp es1 (evb f s1 p1 false avail1)
+          | _ => BRet s1 p1 false avail1 es1
+          end
+        end
+      end
+    end
+  end.
+
+(* poll: event_read while the socket has bytes, the connection is open and reads are enabled *)
+Fixpoint drainb (fuel : nat) (s : mst) (pend wait : bool) (avail : list N) : mresb :=
+  match fuel with
+  | O => BOut
+  | S f =>
+    if wait then BRet s pend true avail [] else
+    match avail with
+    | [] => BRet s pend false [] []
+    | _ :: _ =>
+      match m_mode s with
+      | RClosed => BRet s pend false [] []
+      | _ =>
+        match evb (ev_fuel avail) s pend false avail with
+        | BRet s1 p1 w1 a1 es1 => bapp es1 (drainb f s1 p1 w1 a1)
+        | x => x
+        end
+      end
+    end
+  end.
+
+(* the write side becomes ready and writes everything it has: the pending reply goes out, a waiting
+   message is processed (its reply becomes pending and is written in turn), the buffer behind it is
+   parsed, reads resume -- until nothing waits *)
+Fixpoint wready (fuel : nat) (s : mst) (wait : bool) (sock : list N) : mresb :=
+  match fuel with
+  | O => BOut
+  | S f =>
+    if wait then
+      match feedb (S (S (length (m_buf s)))) (m_h s) false (m_mode s) (m_buf s) with
+      | PBFault => BFault
+      | PBOut => BOut
+      | PB h1 p1 w1 m1 b1 es1 =>
+        let s1 := mk_mst h1 m1 b1 (m_cnt s) in
+        match drainb (drain_fuel sock) s1 p1 w1 sock with
+        | BRet s2 _ w2 a2 es2 => bapp (es1 ++ es2) (wready f s2 w2 a2)
+        | x => x
+        end
+      end
+    else BRet s false false sock []
+  end.
+
+Inductive bevent := BSeg (l : list N) | BWrite.
+
+Fixpoint runB (s : mst) (pend wait : bool) (sock : list N) (evs : list bevent) : mresb :=
+  match evs with
+  | [] => BRet s pend wait sock []
+  | BSeg l :: r =>
+    match drainb (drain_fuel (sock ++ l)) s pend wait (sock ++ l) with
+    | BRet s1 p1 w1 a1 es1 => bapp es1 (runB s1 p1 w1 a1 r)
+    | x => x
+    end
+  | BWrite :: r =>
+    match wready (S (S (length sock + length (m_buf s)))) s wait sock with
+    | BRet s1 p1 w1 a1 es1 => bapp es1 (runB s1 p1 w1 a1 r)
+    | x => x
+    end
+  end.
+
+Definition run_b (h : HS) (pre : list N) (evs : list bevent) : mresb :=
+  match pre with
+  | [] => runB (mk_mst h RIdle [] 0) false false [] evs
+  | _ :: _ =>
+    match evb (ev_fuel []) (mk_mst h RIdle pre 0) false false [] with
+    | BRet s0 p0 w0 _ es0 => bapp es0 (runB s0 p0 w0 [] evs)
+    | x => x
+    end
+  end.
+
 (* ---- PeerConnectionMetadata::event_read ---------------------------------------------------- *)
 (* IDLE: fill to 512 (no return on a 0-byte read), parse, loop if the buffer was filled to 512
    or the parse left the IDLE state (commit 37af099; before it only the first condition, so a
@@ -554,6 +762,9 @@ End Framing.
 Arguments PRes {HS}.
 Arguments PFault {HS}.
 Arguments POut {HS}.
+Arguments BRet {HS}.
+Arguments BFault {HS}.
+Arguments BOut {HS}.
 Arguments MRet {HS}.
 Arguments MFault {HS}.
 Arguments MOut {HS}.
@@ -632,8 +843,10 @@ Record cfg := mk_cfg {
   c_npieces : N;
   c_done : bool;              (* file_list()->is_done() *)
   c_can_unchoke : bool;       (* a free upload slot exists *)
-  c_ext_verdicts : list bool  (* k-th completed extension message closes the connection
+  c_ext_verdicts : list bool; (* k-th completed extension message closes the connection
                                  (read_done -> communication_error), supplied per case *)
+  c_ext_reply : list bool     (* k-th completed extension message generates a reply (ut_metadata request
+                                 from a peer that advertised ut_metadata), supplied per case *)
 }.
 
 Record hst := mk_hst {
@@ -719,6 +932,12 @@ Definition run_real (c : cfg) (budget : nat -> nat) (short : nat -> bool)
            (h0 : hst) (pre : list N) (segs : list (list N)) : mres hst :=
   if is_meta (c_role c) then run_meta hst (hreal c) (c_role c) budget h0 pre segs
   else run hst (hreal c) (c_role c) budget short h0 pre segs.
+
+Definition reply_real (c : cfg) (h : hst) : bool := nth (h_extn h) (c_ext_reply c) false.
+
+Definition run_b_real (c : cfg) (budget : nat -> nat) (short : nat -> bool)
+           (h0 : hst) (pre : list N) (evs : list bevent) : mresb hst :=
+  run_b hst (hreal c) (c_role c) budget short (reply_real c) h0 pre evs.
 
 Definition decode_real (c : cfg) (h0 : hst) (s : list N) : pres hst :=
   decode hst (hreal c) (c_role c) h0 s.
